@@ -36,3 +36,22 @@ Example chain_example :
   let d := mkToken KDigits 0%N 0%N 0%N 0%N [49%N] in
   exists e, parse_expr 40 5 (flat token binop unop leaf (rchain p 5 BAdd d 3)) = Ok (e, []) /\ rdepth e = 4.
 Proof. eexists. split; [vm_compute; reflexivity|reflexivity]. Qed.
+
+(* ... and that tree is the one that leans to the left: a chain of any length of one operator associates to the left
+   (x o x o x is (x o x) o x), as Annex B.3.1 says of every operator *)
+Theorem chain_associates_left : forall k lv o (t x : token) n rest,
+  In (k, lv, o) op_kinds -> t_kind t = k -> t_kind x = KDigits ->
+  follow_lt token binop tok_triv tok_bop lv rest ->
+  exists f0, forall f, f0 <= f ->
+    parse_expr f lv (flat token binop unop leaf (rchain t lv o x n) ++ rest)
+    = Ok (left_tree binop unop leaf o (LInt (t_text x)) n, rest).
+Proof.
+  intros k lv o t x n rest Hin Hk Hx Hf.
+  destruct (op_kind_ok k lv o t Hin Hk) as (Hb & Ht & Hn).
+  destruct (digits_ok x Hx) as (Hxt & Hxa & Hxu).
+  destruct (parse_expr_spelled (rchain t lv o x n) lv rest) as [f0 H].
+  - apply (chain_wf token binop unop leaf tok_triv tok_bop tok_uop tok_atom tok_lp tok_rp tok_noafter t lv o x (LInt (t_text x)) Ht Hb Hn Hxt Hxa Hxu n lv (le_n lv)).
+  - exact Hf.
+  - unfold follow_ok. rewrite chain_ends. discriminate.
+  - exists f0. intros f Hle. rewrite (H f Hle). rewrite chain_erase. reflexivity.
+Qed.
